@@ -2456,6 +2456,9 @@ class BSP:
 
                 # Older leaf lumps include some ambient light data at the end.
                 if has_ambient:
+                    # noinspection PyProtectedMember
+                    if len(leaf._ambient) > 24:
+                        raise ValueError(f'Leaf ambient lighting {leaf._ambient!r} exceeds the 24 byte field')
                     leafdata = (*leafdata, leaf._ambient)
 
                 buf.write(self.lump_layout['LEAF'].pack(*leafdata))
